@@ -36,6 +36,9 @@ func selectedPathOf(s model.ServiceSpec, r model.RouteSpec) string {
 }
 
 func normSlash(p string) string {
+	if !strings.HasPrefix(p, "/") {
+		p = "/" + p // a root path written without leading slash
+	}
 	if p == "/" {
 		return p
 	}
